@@ -338,16 +338,21 @@ RefWho(cfg, r) == IF NeedAuth(cfg, r) THEN CredWho(r.c) ELSE "admin"
 RefRequired(r) ==
     { <<RefApiResource(r.p), MethodPriv(r.m)>>, <<RefApiResource(FinalPath(r.p)), MethodPriv(r.m)>> }
     \cup (IF Match(r.m, FinalPath(r.p)).kind = "write" THEN { <<DbResource(r.db), "write">> } ELSE {})
-RefServe(cfg, t, r) ==
-    IF r.m \notin SupportedMethods \/ r.m = "OPTIONS" \/ Tricky(r.p) THEN {FALSE}
-    ELSE LET rt == Match(r.m, FinalPath(r.p)) IN
-         IF rt.kind \notin {"test", "ping", "vars", "write"} THEN {FALSE}
-         ELSE IF rt.kind = "write" /\ r.db = <<>> THEN {FALSE}
-         ELSE IF RefWho(cfg, r) = "invalid" THEN {FALSE}
-         ELSE LET ds == { RefDecisions(IsAdminWho(RefWho(cfg, r)), t, TRUE, a[1], a[2]) : a \in RefRequired(r) } IN
-              IF {FALSE} \in ds THEN {FALSE}
-              ELSE IF ds \subseteq {{TRUE}} THEN {TRUE}
-              ELSE BOOLEAN
+(* everything about a request that does not depend on the table (computed   *)
+(* once per request of the universe by the trace specification)             *)
+ReqInfo(r) ==
+    LET ok == r.m \in SupportedMethods /\ r.m # "OPTIONS" /\ ~Tricky(r.p)
+        rt == IF ok THEN Match(r.m, FinalPath(r.p)) ELSE [kind |-> "none", bypass |-> FALSE]
+        live == ok /\ rt.kind \in {"test", "ping", "vars", "write"} /\ ~(rt.kind = "write" /\ r.db = <<>>)
+    IN [r |-> r, live |-> live, required |-> IF live THEN RefRequired(r) ELSE {}]
+RefServeI(cfg, t, info) ==
+    IF ~info.live THEN {FALSE}
+    ELSE IF RefWho(cfg, info.r) = "invalid" THEN {FALSE}
+    ELSE LET ds == { RefDecisions(IsAdminWho(RefWho(cfg, info.r)), t, TRUE, a[1], a[2]) : a \in info.required } IN
+         IF {FALSE} \in ds THEN {FALSE}
+         ELSE IF ds \subseteq {{TRUE}} THEN {TRUE}
+         ELSE BOOLEAN
+RefServe(cfg, t, r) == RefServeI(cfg, t, ReqInfo(r))
 
 ---------------------------------------------------------------------------
 (* behaviour: the table is built grant by grant (each table is reached      *)
